@@ -1745,8 +1745,14 @@ class Interp:
             args = [VOpaque(p.arg) for p in fnode.args.args]
             try:
                 self.world.call_builtin(self, cl, args, {}, node)
-            except _Raise:
-                pass
+            except _Raise as r:
+                allowed = rl.get("raises")
+                if allowed is not None:
+                    ok = any(issubclass(r.exc.cls, self.world.resolve_class(a)) for a in allowed)
+                    self.oblige("RELY-RAISES", f"{ref.short}/{rl['closure']}: raises only {sorted(allowed)}"
+                                f" ({r.exc.cls.__name__} from `{r.exc.origin}`)" if not ok else
+                                f"{ref.short}/{rl['closure']}: raises only {sorted(allowed)}",
+                                z3.BoolVal(ok), line)
             for clause in rl["inv"]:
                 self.oblige("RELY-PRES", f"{ref.short}/{rl['closure']}: {clause}",
                             self.spec_eval(clause, self.st.env, fr), line)
